@@ -219,6 +219,13 @@ SINKS = {
 }
 
 
+def _manual_heads(fmt: str) -> list[str]:
+    try:
+        return [fname.split(".")[0].split("[")[0] for _, fname, _, _ in string.Formatter().parse(fmt) if fname]
+    except ValueError:
+        return []
+
+
 def _placeholders(fmt: str) -> tuple[int, set[str]] | None:
     """(number of positional arguments needed, keyword names needed); None when malformed."""
     need = 0
@@ -238,6 +245,8 @@ def _placeholders(fmt: str) -> tuple[int, set[str]] | None:
                 kws.add(head)
     except ValueError:
         return None
+    if auto and any(h.isdigit() for h in _manual_heads(fmt)):
+        return None  # `{} ... {2}`: str.format refuses to switch from automatic to manual numbering (ValueError when formatted)
     return need, kws
 
 
@@ -1258,4 +1267,27 @@ def r08_13_last_character_needs_a_character(ctx: Ctx) -> RuleResult:
                 rr.ok({"peek": f"{f.qual}: {unparse(n)[:50]}"})
             else:
                 rr.fail(f.qual, f"`{unparse(n)[:60]}` is not dominated by a test that `{base}` is non-empty: IndexError when nothing has been written yet (pattern creation formats a sample value)", ctx.loc(f, n))
+    return rr
+
+
+@rule("C08")
+def r08_14_embedded_pattern_starts_on_its_delimiter(ctx: Ctx) -> RuleResult:
+    """`_PatternCursor.get_embedded_pattern` is what rejects `l` followed by anything but `<` with InvalidPatternError; the handlers
+    that call it rely on that (their `case _: raise RuntimeError("Bug ...")` is unreachable only because of it, see R08.2).  After
+    its opening guard the facts must include that the cursor has moved and that the current character IS the start delimiter -
+    however the test is spelt; a wrongly distributed negation lets any character through."""
+    rr = RuleResult("R08.14", "after the opening guard of get_embedded_pattern the current character is known to be the embedded-pattern start delimiter", min_instances=1)
+    f = ctx.M.func("_PatternCursor.get_embedded_pattern")
+    body = [s for s in f.body if not (isinstance(s, ast.Expr) and isinstance(s.value, ast.Constant))]
+    guard = next((s for s in body if isinstance(s, ast.If) and any(isinstance(x, ast.Raise) for x in s.body)), None)
+    rr.inst()
+    if guard is None or body.index(guard) + 1 >= len(body):
+        raise AnalysisError(f"{f.qual}: opening guard not found")
+    facts = facts_at(body[body.index(guard) + 1])
+    on_start = any(op == "==" and {a, b} == {"self.current", "self._EMBEDDED_PATTERN_START"} for a, op, b in facts)
+    moved = any(a.replace(" ", "") == "self.move_next()" and op == "truthy" for a, op, b in facts)
+    if on_start and moved:
+        rr.ok({"guard": unparse(guard.test)[:80]})
+    else:
+        rr.fail(f.qual, f"after `if {unparse(guard.test)[:70]}: raise` it is not established that the cursor moved and that the current character is the start delimiter: other characters are accepted and the callers' \"cannot happen\" branch is reached", ctx.loc(f, guard))
     return rr
